@@ -12,6 +12,7 @@ CONSTANTS
   Clamps <- L_True
   Actuations <- L_True
   DisSets <- L_Dis0
+  Gravs <- L_G0
   Variant = "noforceclamp"
 
 INVARIANT TypeOK
@@ -23,6 +24,7 @@ INVARIANT ActuationOffNoJointForce
 INVARIANT DisabledFrozen
 INVARIANT PowerBalance
 INVARIANT Undriven
+INVARIANT GravCompRouted
 INVARIANT ActInRange
 INVARIANT JointClampMinimal
 INVARIANT MuscleEnvelope
